@@ -48,6 +48,7 @@ FIXED = [
  ("C11", "754c0d9", "C11/changed/UserAddNode/ValueError/(AddNode)", "with 3-D ellipse_axis_radii enabled, adding or painting a flat/collinear mask raised ValueError 'math domain error' from inside the regionprops annotator (sqrt of a rounding-negative moment) after the primitive had already written node, pixels and attributes; the refused UserAddNode / UserUpdateSegmentation left them behind"),
  ("C05", "c3095d7", "C05/partition/UserAddNode/(DeleteEdge,AddNode,AddEdge,AddEdge)", "UserAddNode wrote the lineage id it determined into the caller's attributes dict; a caller re-using the dict for the next node passed that lineage id to an unconnected node (two components, one lineage id); the same aliasing made undo of later edits inexact"),
  ("C04", "9aae0c4", "C04/partition/UserAddNode/(AddNode)", "SolutionTracks.from_tracks on a Tracks object without nodes left the track / lineage id features switched off (nothing to inspect, registry of the plain Tracks taken over): later edits gave two nodes of one frame the same track id and the id lookups stayed empty; first seen by the C14 round-trip check on a session that started from an empty from_tracks solution"),
+ ("C14", "db4f8a4", "C14/csv-display/raised/AssertionError", "export_to_csv(use_display_names=True) failed with AssertionError as soon as one node had no value for an optional multi-value feature (registered custom two-valued feature with gaps)"),
  ("C14", "e1e7d61", "C14/csv-display/feature/tag", "CSV round trip of a registered text feature: nodes without a value came back with the string 'nan' (empty cells of a pandas string-dtype column were not recognised as missing)"),
 ]
 
